@@ -1,4 +1,6 @@
 import ShredModel.Lemmas.Scenario
+import ShredModel.Lemmas.NestedTop
+import ShredModel.Lemmas.Threads
 /-!
 # C12 — thread-local systems
 
@@ -27,4 +29,61 @@ theorem C12_thread_local_last (l : List (Ev SysTag)) (hl : Traces sc.plan l)
 end Scenario
 end Shred
 
+
+namespace Shred
+
+/-- **C12 (thread-local systems run in registration order, one at a time).** -/
+theorem C12_thread_local_in_order (sc : Scenario) (l : List (Ev SysTag)) (hl : Traces sc.plan l)
+    (i j : Nat) (x y : SysTag) (hi : sc.tl[i]? = some x) (hj : sc.tl[j]? = some y) (hij : i < j)
+    (l1 l2 : List (Ev SysTag)) (hsplit : l = l1 ++ Ev.F y :: l2) : Ev.D x ∈ l1 := by
+  obtain ⟨z, hz⟩ := sc.good
+  have hnd := nodup_dispatchTask hz sc.tl sc.tl_nodup sc.tl_fresh
+  exact traces_before hl hnd x y (before_tl_order hi hj hij) l1 l2 hsplit
+
+/-- **C12 (calling thread), for a dispatcher that is not nested in a batch**: the thread the model
+assigns to every thread-local system is the thread that called `dispatch` (`'c'`), to every
+staged system a pool worker under `dispatch` / `dispatch_par` and the caller under
+`dispatch_seq`. The driver compares the thread kind of every logged event with this table. -/
+theorem C12_threads_partial (par : Bool) (stages : Table (List SysTag)) (tl : List SysTag)
+    (bs : List (SysTag × Threads)) :
+    (∀ t, t ∈ tl → ([t], 'c') ∈ nThreads par stages tl bs 'c' []) ∧
+    (∀ t, t ∈ stages.flatten.flatten → ([t], if par then 'w' else 'c') ∈ nThreads par stages tl bs 'c' []) :=
+  ⟨fun t ht => by simpa using tl_thread_mem par stages tl bs 'c' [] t ht,
+   fun t ht => by simpa using staged_thread_mem par stages tl bs 'c' [] t ht⟩
+
+/-- and nothing else is assigned to a top-level instance -/
+theorem C12_threads_only (par : Bool) (stages : Table (List SysTag)) (tl : List SysTag)
+    (bs : List (SysTag × Threads))
+    (hbs : ∀ t inner c p x, findThreads bs t = some inner → x ∈ inner c p → p.length < x.1.length)
+    (x : Inst × Char) (hx : x ∈ nThreads par stages tl bs 'c' []) (hlen : x.1.length = 1) :
+    (∃ t, t ∈ stages.flatten.flatten ∧ x = ([t], if par then 'w' else 'c')) ∨ (∃ t, t ∈ tl ∧ x = ([t], 'c')) := by
+  simpa using nThreads_top_level par stages tl bs hbs 'c' [] x hx (by simpa using hlen)
+
+/-- **KF1 (open finding), as a theorem about the model that mirrors the code**: the full
+statement "thread-local systems never run on a pool worker" is FALSE for a thread-local system of
+a builder passed to `add_batch`: the batch runs as an ordinary system on a worker and its inner
+`dispatch` runs the inner thread-local system there. Witness: batch `0` holding thread-local `1`. -/
+theorem C12_kf1_witness :
+    ([0, 0, 1], 'w') ∈ nThreads true [[[0]]] [] [(0, batchThreads true [] [1] [] 1)] 'c' [] := by decide
+
+/-- what `try_into_sendable` does: `Ok(self.inner)` iff the thread-local list is empty -/
+def tryIntoSendable (stages : Table (List SysTag)) (tl : List SysTag) : Option (Table (List SysTag)) :=
+  if tl.isEmpty then some stages else none
+
+/-- **C12 (sendable form).** The conversion succeeds exactly when there is no thread-local
+system, and then the plan is unchanged. -/
+theorem C12_sendable_iff (stages : Table (List SysTag)) (tl : List SysTag) (r : Table (List SysTag)) :
+    tryIntoSendable stages tl = some r ↔ tl = [] ∧ r = stages := by
+  unfold tryIntoSendable
+  cases tl with
+  | nil => simp [eq_comm]
+  | cons a l => simp
+
+end Shred
+
 #print axioms Shred.Scenario.C12_thread_local_last
+#print axioms Shred.C12_thread_local_in_order
+#print axioms Shred.C12_threads_partial
+#print axioms Shred.C12_threads_only
+#print axioms Shred.C12_kf1_witness
+#print axioms Shred.C12_sendable_iff
